@@ -65,17 +65,26 @@ func runC05(c *Ctx) {
 			"removeBlock deletes the family saveBlock sets", ok, "")
 		if ok {
 			c.Require("C05.R1 same-key-expression", "saveBlock/removeBlock "+f, p.InstrPos(d.op.Call),
-				"Del key expression equals the Set key expression (same block-relative key)", d.key == sets[f].key, "set: "+sets[f].key+"\ndel: "+d.key)
+				"Del key expression equals the Set key expression (same block-relative key)", normIter(d.key) == normIter(sets[f].key), "set: "+sets[f].key+"\ndel: "+d.key)
 			// a Del must not be guarded by a condition the Set does not have
 			// (e.g. deleting only when a list is non-empty is fine only if the Set is guarded the same way)
+			seenCond := map[string]bool{}
 			for _, df := range d.cond {
+				ck := normFact(df)
+				if k, r, dd, ok := canonCmp(df); ok {
+					ck = fmt.Sprintf("%s %s %d", k, r, dd)
+				}
+				if seenCond[ck] {
+					continue
+				}
+				seenCond[ck] = true
 				has := false
 				for _, sf := range sets[f].cond {
-					if sf.String() == df.String() {
+					if factImplies(sf, df) {
 						has = true
 					}
 				}
-				c.Require("C05.R1 del-not-more-guarded-than-set", "removeBlock Del "+f+" under "+normFact(df), p.InstrPos(d.op.Call),
+				c.Require("C05.R1 del-not-more-guarded-than-set", "removeBlock Del "+f+" under "+ck, p.InstrPos(d.op.Call),
 					"every condition guarding the Del also guards the Set", has, "Del guarded by "+df.String())
 			}
 		}
@@ -234,7 +243,7 @@ func runC05(c *Ctx) {
 		c.Require("C05.R2 revert-uses-read-diff", "deleteBlock RevertDiff", p.InstrPos(s[0].Call), "RevertDiff only after the diff was found and decoded successfully", okG && okD, fmt.Sprintf("found=%v decoded=%v", okG, okD))
 		dec := CallsIn(del, "(*db/diffdb.Diff).Decode")
 		if len(dec) == 1 {
-			same := stripConv(dec[0].Call.Common().Args[0]) == stripConv(s[0].Call.Common().Args[2])
+			same := valueOrigin(dec[0].Call.Common().Args[0]) == valueOrigin(s[0].Call.Common().Args[2])
 			data := T(dec[0].Call.Common().Args[1])
 			c.Require("C05.R2 revert-uses-read-diff", "deleteBlock Decode→RevertDiff object", p.InstrPos(s[0].Call), "the Diff object decoded is the one reverted, from the bytes read", same && IsResult("(*db.DB).Get", 0).Match(data), data.String())
 		}
@@ -288,7 +297,7 @@ func runC05(c *Ctx) {
 	}
 }
 
-func normFact(f Fact) string { return f.String() }
+func normFact(f Fact) string { return normIter(f.String()) }
 
 func hasBoolFact(fs []Fact, m Matcher, truth bool) bool {
 	for _, f := range fs {
